@@ -18,7 +18,7 @@ import (
 )
 
 type hcase struct {
-	Kind  string `json:"kind"`  // "sdp" | "session"
+	Kind  string `json:"kind"` // "sdp" | "session"
 	Class string `json:"class"`
 }
 
